@@ -195,6 +195,32 @@ def _stack_case(case):
     case.check(bases.shape == (k, S, S, S), "get_bases shape", None)
     pred = clf.predict(da.from_array(stack, chunks=(N, S, S, S)))
     case.check(np.array_equal(np.asarray(pred), labels), "predict() on the training stack disagrees with labels", None)
+    # split_clusters: cluster i is exactly the images labelled i, in their order (labels stay attached to images)
+    if labels.shape == (N,):
+        parts = clf.split_clusters()
+        okp = len(parts) == 2
+        for i_, part in enumerate(parts[:2]):
+            part = np.asarray(part)
+            want_p = stack[labels == i_]
+            okp = okp and part.shape == want_p.shape and np.array_equal(part, want_p)
+        case.check(okp, "split_clusters does not return the images of each label in their order", None, labels=labels.tolist())
+    # the fitted PCA object: inverse_transform(projections) == projections @ components + mean, and (exact solver)
+    # fit_transform on the same data gives the projections of fit + transform
+    if ok_shape and not inexact:
+        from acryo.classification._dask_pca import DaskPCA
+
+        inv = np.asarray(clf.pca.inverse_transform(da.from_array(tr)))
+        want_inv = tr.astype(np.float64) @ comp + np.asarray(clf.pca.mean_, float)
+        ierr = float(np.abs(inv - want_inv).max()) / max(float(np.abs(want_inv).max()), 1e-12)
+        case.check(inv.shape == want_inv.shape and ierr <= 1e-4, "inverse_transform is not projections @ components + mean",
+                   None, err=ierr)
+        if not randomized:
+            Xd = da.from_array((stack * (1.0 if mask is None else mask)).reshape(N, -1).astype(np.float32), chunks=(max(1, N // 2), D))
+            ft = np.asarray(DaskPCA(n_components=k).fit_transform(Xd))
+            ferr = float(np.abs(ft[:, sel] - tr[:, sel]).max()) / max(scale, 1e-12) if (ft.shape == tr.shape and sel.any()) else (0.0 if ft.shape == tr.shape else np.inf)
+            case.check(ferr <= TOLERANCES["proj_rel"], "fit_transform differs from fit followed by transform", None, err=ferr,
+                       shape=ft.shape)
+            case.count("fit_transform_compared")
 
 
 def _loader_case(case):
